@@ -258,6 +258,8 @@ EXPR_WRAPPERS = {
     ('built_in_join.rs::evaluate_join', 'out += &s;'): 'str_append(&mut out, &s);',
     # atom!(out) is Unifiable::Atom(out.to_string()); ToString for String is the blanket impl over Display (no specification possible)
     ('built_in_join.rs::evaluate_join', 'atom!(out)'): 'atom_of_string(&out)',
+    # `String + &String` crashes the Verus front end: wrapped (the text is only an error message)
+    ('rule_reader.rs::unmatched_bracket', '"Check: ".to_string() + &s'): 'str_concat_lit("Check: ", &s)',
     # ToString for String is the blanket impl over Display: no specification possible
     ('unifiable.rs::Unifiable::replace_variables', 's.to_string()'): 'string_copy(s)',
     ('unifiable.rs::Unifiable::replace_variables', 'name.to_string()'): 'string_copy(name)',
